@@ -30,12 +30,14 @@ VARIABLES m,     \* the MDIB: [D, S, C, mver, lastD, lastS, lastC]
           tx,    \* the open transaction (kind "none" when there is none)
           ntx,   \* number of finished transactions
           hist,  \* emitted behaviour (hidden by VIEW in exhaustive runs)
-          trk    \* life-cycle word of TrackH: one letter per finished transaction that touched it
+          trk,   \* life-cycle word of TrackH: one letter per finished transaction that touched it
                  \* (A add, D delete, U update, S state update; lower case = aborted)
+          kept   \* handle of the entity object the application obtained between two transactions and still holds
+                 \* ("none": none); it is written / refreshed / changed LATER, when the MDIB has moved on
 
-vars == <<m, tx, ntx, hist, trk>>
-view == <<m, tx, ntx>>
-trkview == <<m, tx, ntx, trk>>
+vars == <<m, tx, ntx, hist, trk, kept>>
+view == <<m, tx, ntx, kept>>
+trkview == <<m, tx, ntx, trk, kept>>
 
 Ext == "ext"          \* parent outside the model universe (e.g. the MDS)
 NoneP == "none"
@@ -55,7 +57,7 @@ InitM == [D |-> [h \in H |-> IF InitParent[h] = NoneP THEN NoD
           mver |-> 0,
           lastD |-> [h \in H |-> -1], lastS |-> [h \in H |-> -1], lastC |-> [c \in CH |-> -1]]
 
-Init == m = InitM /\ tx = NoTx /\ ntx = 0 /\ hist = <<>> /\ trk = <<>>
+Init == m = InitM /\ tx = NoTx /\ ntx = 0 /\ hist = <<>> /\ trk = <<>> /\ kept = NoneP
 
 \* ------------------------------------------------------------------ helpers
 Idx(seq, key, v) == IF \E i \in 1..Len(seq) : seq[i][key] = v
@@ -73,6 +75,7 @@ Log(rec) == /\ hist' = Append(hist, rec)
             /\ trk' = IF TrackH # "none" /\ rec.act \in {"Commit", "Abort"} /\ TrkLetter # "-"
                       THEN Append(trk, IF rec.act = "Commit" THEN TrkLetter ELSE Lower(TrkLetter))
                       ELSE trk
+            /\ kept' = IF rec.act = "KeepEntity" THEN rec.h ELSE kept
 Op(t) == [t EXCEPT !.nops = @ + 1]
 NextVer(last) == IF last >= 0 THEN last + 1 ELSE 0
 StateKind(h) == Kind[h]
@@ -140,15 +143,18 @@ SUnget(h) == /\ StateOpen /\ InS(h) /\ tx.s[Idx(tx.s, "h", h)].via = "get"
              /\ Log([act |-> "UngetState", h |-> h, res |-> "ok"])
 
 \* entity interface: entities.by_handle(h), change the state content, write_entity
-SWriteEntity(h, t) ==
+SWriteEntityAs(h, t, name) ==
   /\ StateOpen /\ m.D[h].present /\ Single(h) /\ m.S[h].present
   /\ IF StateKind(h) = tx.kind
      THEN /\ LET item == [h |-> h, op |-> "upd", via |-> "ent", sver |-> m.S[h].sver + 1, dver |-> m.D[h].ver, tok |-> t]
                  i == Idx(tx.s, "h", h)
              IN tx' = Op([tx EXCEPT !.s = IF i = 0 THEN Append(@, item) ELSE [@ EXCEPT ![i] = item]])
           /\ UNCHANGED <<m, ntx>>
-          /\ Log([act |-> "WriteEntity", h |-> h, t |-> t, res |-> "ok"])
-     ELSE Rejected([act |-> "WriteEntity", h |-> h, t |-> t])
+          /\ Log([act |-> name, h |-> h, t |-> t, res |-> "ok"])
+     ELSE Rejected([act |-> name, h |-> h, t |-> t])
+SWriteEntity(h, t) == SWriteEntityAs(h, t, "WriteEntity")
+\* the entity was obtained before earlier transactions changed the MDIB (versions and content of the object are old)
+SWriteKept(h, t) == kept = h /\ SWriteEntityAs(h, t, "WriteKeptEntity")
 
 \* ------------------------------------------------------------------ context state transactions
 CGet(c) == /\ Open("context")
@@ -284,7 +290,7 @@ DGetState(h) ==
      ELSE Rejected([act |-> "GetState", h |-> h])
 
 \* entity interface in a descriptor transaction: by_handle(h), change descriptor and state content, write_entity
-DWriteEntity(h, t) ==
+DWriteEntityAs(h, t, name) ==
   /\ Open("descriptor") /\ m.D[h].present /\ Single(h) /\ m.S[h].present
   /\ IF ~InD(h)
      THEN /\ tx' = Op([tx EXCEPT
@@ -293,8 +299,36 @@ DWriteEntity(h, t) ==
                           i == Idx(tx.s, "h", h)
                       IN IF i = 0 THEN Append(@, item) ELSE [@ EXCEPT ![i] = item]])
           /\ UNCHANGED <<m, ntx>>
-          /\ Log([act |-> "WriteEntity", h |-> h, t |-> t, res |-> "ok"])
-     ELSE Rejected([act |-> "WriteEntity", h |-> h, t |-> t])
+          /\ Log([act |-> name, h |-> h, t |-> t, res |-> "ok"])
+     ELSE Rejected([act |-> name, h |-> h, t |-> t])
+DWriteEntity(h, t) == DWriteEntityAs(h, t, "WriteEntity")
+DWriteKept(h, t) == kept = h /\ DWriteEntityAs(h, t, "WriteKeptEntity")
+
+\* entity interface for a CONTEXT descriptor in a descriptor transaction: by_handle(d), change the descriptor, optionally
+\* add a state (new_state) and / or drop one, write_entity: the descriptor and ALL states of the entity are written
+RECURSIVE CtxItems(_, _, _)
+CtxItems(items, cs, dv) ==
+  IF cs = {} THEN items
+  ELSE LET c == CHOOSE x \in cs : TRUE
+       IN CtxItems(Append(items, [m.C[c] EXCEPT !.sver = @ + 1, !.dver = dv] @@ [c |-> c, op |-> "upd"]), cs \ {c}, dv)
+DWriteEntityCtx(d, t, newc, dropc) ==
+  /\ Open("descriptor") /\ Kind[d] = "ctx" /\ m.D[d].present
+  /\ newc \in {NoneP} \cup {c \in CH : CtxOf[c] = d /\ ~m.C[c].present /\ ~InC(c)}
+  /\ dropc \in {NoneP} \cup {c \in CH : m.C[c].present /\ m.C[c].d = d /\ ~InC(c)}
+  /\ LET rec == [act |-> "WriteEntityCtx", d |-> d, t |-> t, c |-> newc, drop |-> dropc] IN
+     IF ~InD(d)
+     THEN LET dv == m.D[d].ver + 1
+              keep == {c \in CH : m.C[c].present /\ m.C[c].d = d /\ c # dropc}
+              i1 == CtxItems(tx.c, keep, dv)
+              i2 == IF newc = NoneP THEN i1
+                    ELSE Append(i1, [c |-> newc, op |-> "new", present |-> TRUE, d |-> d, sver |-> NextVer(m.lastC[newc]),
+                                     dver |-> dv, tok |-> 0, assoc |-> "No", bind |-> -1, unbind |-> -1])
+              i3 == IF dropc = NoneP THEN i2 ELSE Append(i2, m.C[dropc] @@ [c |-> dropc, op |-> "del"])
+          IN /\ tx' = Op([tx EXCEPT !.d = Append(@, [h |-> d, op |-> "upd", parent |-> m.D[d].parent, ver |-> dv, tok |-> t]),
+                                    !.c = i3])
+             /\ UNCHANGED <<m, ntx>>
+             /\ Log(rec @@ [res |-> "ok"])
+     ELSE Rejected(rec)
 
 \* entities.new_entity(...) + write_entity
 DNewEntity(h, p) ==
@@ -403,7 +437,18 @@ MutateCopy(src, t) == /\ tx.kind = "none" /\ ntx > 0 /\ ntx < MaxTx
                       /\ UNCHANGED <<m, tx, ntx>>
                       /\ Log([act |-> "MutateCopy", src |-> src, t |-> t, res |-> "ok"])
 
+\* the application obtains an entity between two transactions and keeps the object
+KeepEntity(h) == /\ tx.kind = "none" /\ kept = NoneP /\ ntx < MaxTx
+                 /\ m.D[h].present /\ (Single(h) => m.S[h].present)
+                 /\ UNCHANGED <<m, tx, ntx>>
+                 /\ Log([act |-> "KeepEntity", h |-> h, res |-> "ok"])
+
 Next == \/ \E src \in {"getter", "entity", "result"}, t \in Tok : MutateCopy(src, t)
+        \* the kept entity is refreshed with update() and then changed: "kept_new" changes only what update() added
+        \/ \E src \in {"kept_upd", "kept_new"}, t \in Tok : kept # NoneP /\ m.D[kept].present /\ MutateCopy(src, t)
+        \/ \E h \in H : KeepEntity(h)
+        \/ \E h \in H, t \in Tok : SWriteKept(h, t) \/ DWriteKept(h, t)
+        \/ \E d \in H, t \in Tok, nc \in CH \cup {NoneP}, dc \in CH \cup {NoneP} : DWriteEntityCtx(d, t, nc, dc)
         \/ \E k \in BeginKinds : Begin(k)
         \/ Abort \/ Commit
         \/ \E h \in H : SGet(h) \/ SUnget(h) \/ DGet(h) \/ DRemove(h) \/ DGetState(h)
